@@ -9,7 +9,7 @@
 
    As for ut_map, three lemmas hold only on well-formed states (wfl), see g_do_prune_ok and g_do_erase_ok. *)
 Require Import Capp.Base Capp.Spec Capp.UtMap Capp.UtMapFacts Capp.RrLit Capp.LruLit Capp.UmLit Capp.UmLitFacts
-               Capp.GenPrims CappGen.GenUtSet.
+               Capp.GenPrims Capp.Conc Capp.GenConc CappGen.GenUtSet.
 From Coq Require Import Strings.String Lia.
 
 (* ---- facts about the formal std::list / association lists the proofs below need ---- *)
@@ -506,8 +506,27 @@ Section UtSetBridge.
       exists l', run_res g_step (g_init ttl) h = Ok (l', snd (run um_step (um_init ttl) h)) /\
                  ul_rep l' (fst (run um_step (um_init ttl) h)).
   Proof. intros ttl h L M NC. rewrite g_init_ok. apply generated_utset_no_UB_on_any_history; auto. Qed.
+
+  (* ---- C06 on the translated program: in every execution of the lock-level machine (Conc.v, Section Lin: invoke,
+     acquire, body = one call of the generated program, release, return) every call returns what the mid-level
+     model returns when it runs the calls in the order of their critical sections — provided the clock readings
+     are monotone in that order, which is the case when a call reads the clock inside its critical section; where
+     the source reads it before taking the lock, this is an assumption about the schedule (the scheduler check of
+     C06 examines such schedules on the real code) ---- *)
+  Theorem generated_utset_lock_level_executions_return_model_results : forall ttl ex st,
+      (0 <= ttl)%Z ->
+      mexec _ _ _ (tstep g_step RUnsupported) (minit _ _ _ (g_init ttl)) ex st ->
+      let l := lin _ _ _ (tstep g_step RUnsupported) (g_init ttl) (fun _ => None) ex in
+      (fun h => mono_from 0 h /\ no_clear h) (map (fun c => snd (fst c)) l) ->
+      map snd l = (fun h => snd (run um_step (um_init ttl) h)) (map (fun c => snd (fst c)) l).
+  Proof.
+    intros ttl ex st Hc Hex.
+    refine (executions_have_the_results_of_the_model g_step RUnsupported (fun h => mono_from 0 h /\ no_clear h) (fun h => snd (run um_step (um_init ttl) h)) (g_init ttl) _ ex st Hex).
+    intros h HP. destruct (generated_utset_constructed_no_UB_on_any_history ttl h Hc (proj1 HP) (proj2 HP)) as (l' & D & _). eauto.
+  Qed.
 End UtSetBridge.
 
 Print Assumptions generated_utset_cells_match_entries.
 Print Assumptions generated_utset_no_UB_on_any_history.
 Print Assumptions generated_utset_constructed_no_UB_on_any_history.
+Print Assumptions generated_utset_lock_level_executions_return_model_results.
